@@ -25,7 +25,7 @@ class _MemmapFactory(object):
     seek/read; refuses, like NumPy, when the mapping exceeds the file."""
 
     def __call__(self, buf, dtype='uint8', mode='r+', offset=0, shape=None, order='C'):
-        from .memmap import memmap_decode
+        from ._memmap import memmap_decode
         return memmap_decode(buf, dtype, mode, offset, shape, order)
 
 
